@@ -30,6 +30,15 @@ type Opts struct {
 	Mapper   *hx.Mapper // default: tables of the history
 	KeepTx   bool       // keep the delivered *Transaction pointers
 	TCP      bool       // serve the master over a real loopback TCP socket (driver's standard dialer)
+	// WaitAllReleased: the failing handler call waits until the master has
+	// written every packet of the dump and the client side has stopped consuming
+	WaitAllReleased bool
+	// Wipe: the handler overwrites everything it was given after its snapshot (hx.Wipe)
+	Wipe bool
+	// Reposition[a], when set, is given to SetBinlogPosition before attempt a (a > 0)
+	Reposition map[int]ref.Position
+	// Nest is called inside every handler call (with the index of the delivery)
+	Nest func(k int)
 }
 
 type tcpServer struct{ *net.TCPConn }
@@ -67,12 +76,14 @@ type Outcome struct {
 	Master      *simmaster.Master
 	Mapper      *hx.Mapper
 	Hung        bool
+	Clients     []*nmem.Conn // client ends of the in-memory connections, in dial order
 }
 
 type session struct {
 	master  *simmaster.Master
 	mu      sync.Mutex
 	servers []*nmem.Conn
+	clients []*nmem.Conn
 	lock    bool
 }
 
@@ -92,6 +103,7 @@ func dial(ctx context.Context, address string) (net.Conn, error) {
 	s.mu.Lock()
 	idx := s.master.NewConnLog()
 	s.servers = append(s.servers, sv)
+	s.clients = append(s.clients, cl)
 	s.mu.Unlock()
 	go s.master.Serve(idx, sv)
 	return cl, nil
@@ -120,8 +132,29 @@ func TablesOf(h *ref.History) []*ref.Table {
 	return out
 }
 
-// Run executes the attempts of o against history h (already laid out).
-func Run(h *ref.History, o Opts) *Outcome {
+// Runner is one Streamer with its master: Start creates both (NewStreamer and
+// SetBinlogPosition), every Attempt is one Stream call followed by Error(),
+// Close ends it. Run is Start + the attempts of o + Close.
+type Runner struct {
+	h       *ref.History
+	o       Opts
+	s       *session
+	id      string
+	st      *gobinlog.Streamer
+	out     *Outcome
+	ndel    int
+	natt    int
+	cleanup []func()
+}
+
+// Streamer gives access to the object under test (setters between attempts).
+func (r *Runner) Streamer() *gobinlog.Streamer { return r.st }
+
+// Outcome is what has been observed so far.
+func (r *Runner) Outcome() *Outcome { return r.out }
+
+// Start builds the master, the mapper and the Streamer and sets its start position.
+func Start(h *ref.History, o Opts) *Runner {
 	setup()
 	id := strconv.FormatInt(nextID.Add(1), 10)
 	s := &session{master: &simmaster.Master{H: h, Plans: o.Plans}, lock: o.LockStep}
@@ -136,8 +169,10 @@ func Run(h *ref.History, o Opts) *Outcome {
 		}
 	}
 	sessions.Store(id, s)
-	defer sessions.Delete(id)
+	r := &Runner{h: h, o: o, s: s, id: id}
+	r.cleanup = append(r.cleanup, func() { sessions.Delete(id) })
 	out := &Outcome{Master: s.master}
+	r.out = out
 	mapper := o.Mapper
 	if mapper == nil {
 		mapper = hx.NewMapper(TablesOf(h)...)
@@ -149,7 +184,7 @@ func Run(h *ref.History, o Opts) *Outcome {
 		if lerr != nil {
 			chk.Fatalf("loopback listener: %v", lerr)
 		}
-		defer lis.Close()
+		r.cleanup = append(r.cleanup, func() { lis.Close() })
 		dsn = "u:p@tcp(" + lis.Addr().String() + ")/d"
 		go func() {
 			for {
@@ -170,13 +205,48 @@ func Run(h *ref.History, o Opts) *Outcome {
 		chk.Fatalf("NewStreamer: %v", err)
 	}
 	st.SetBinlogPosition(gobinlog.Position{Filename: o.Start.File, Offset: int64(o.Start.Pos)})
+	r.st = st
+	return r
+}
+
+// Close releases the session and returns the outcome.
+func (r *Runner) Close() *Outcome {
+	r.s.mu.Lock()
+	r.out.Clients = append(r.out.Clients[:0], r.s.clients...)
+	r.s.mu.Unlock()
+	for _, f := range r.cleanup {
+		f()
+	}
+	r.cleanup = nil
+	return r.out
+}
+
+// Run executes the attempts of o against history h (already laid out).
+func Run(h *ref.History, o Opts) *Outcome {
+	r := Start(h, o)
 	n := o.Attempts
 	if n == 0 {
 		n = 1
 	}
-	ndel := 0
 	for a := 0; a < n; a++ {
+		if !r.Attempt() {
+			break
+		}
+	}
+	return r.Close()
+}
+
+// Attempt is one Stream call (and the Error() call behind it) of the Streamer;
+// false: it did not return within 60 s (Outcome.Hung).
+func (r *Runner) Attempt() bool {
+	o, s, st, out := r.o, r.s, r.st, r.out
+	a := r.natt
+	r.natt++
+	{
 		att := a
+		if p, ok := o.Reposition[a]; ok && a > 0 {
+			st.SetBinlogPosition(gobinlog.Position{Filename: p.File, Offset: int64(p.Pos)})
+		}
 		handler := func(tx *gobinlog.Transaction) error {
 			d := Delivery{Attempt: att, Snap: hx.Snapshot(tx)}
 			if o.KeepTx {
@@ -187,10 +257,19 @@ func Run(h *ref.History, o Opts) *Outcome {
 				d.Released = int(atomic.LoadInt64(&s.master.Logs[len(s.master.Logs)-1].Releasing))
 			}
 			s.mu.Unlock()
-			k := ndel
-			ndel++
+			k := r.ndel
+			r.ndel++
 			d.Accepted = !(o.FailSet && k == o.FailAt)
+			if !d.Accepted && o.WaitAllReleased {
+				s.waitBacklog()
+			}
 			out.Deliveries = append(out.Deliveries, d)
+			if o.Wipe {
+				hx.Wipe(tx)
+			}
+			if o.Nest != nil {
+				o.Nest(k)
+			}
 			if !d.Accepted {
 				return fmt.Errorf("scripted handler failure")
 			}
@@ -210,13 +289,47 @@ func Run(h *ref.History, o Opts) *Outcome {
 		case <-done:
 		case <-time.After(60 * time.Second):
 			out.Hung = true
-			return out
+			return false
 		}
 		out.StreamErr = append(out.StreamErr, serr)
 		out.StreamPanic = append(out.StreamPanic, pan)
 		out.Err1 = append(out.Err1, e1)
 	}
-	return out
+	return true
+}
+
+// waitBacklog returns when the master has written the whole dump of the
+// latest connection and the client has stopped taking bytes off it (it waits
+// for a state, not for a time: at most 30 s, after which the execution goes on
+// with whatever backlog there is).
+func (s *session) waitBacklog() {
+	deadline := time.Now().Add(30 * time.Second)
+	stable, last := 0, -1
+	for time.Now().Before(deadline) {
+		s.mu.Lock()
+		var log *simmaster.ConnLog
+		var cl *nmem.Conn
+		if n := len(s.master.Logs); n > 0 && n <= len(s.clients) {
+			log, cl = s.master.Logs[n-1], s.clients[n-1]
+		}
+		s.mu.Unlock()
+		if log == nil {
+			time.Sleep(time.Millisecond)
+			continue
+		}
+		// (Served is written before the first release: the atomic load orders the read)
+		if rel := int(atomic.LoadInt64(&log.Releasing)); log != nil && cl != nil && rel > 0 && rel >= len(log.Served) {
+			if p := cl.Pending(); p == last {
+				stable++
+				if stable >= 30 {
+					return
+				}
+			} else {
+				stable, last = 0, p
+			}
+		}
+		time.Sleep(time.Millisecond)
+	}
 }
 
 // Snaps returns the snapshots of all deliveries.
